@@ -62,6 +62,12 @@ func checkC18(c *Ctx) {
 	c.Rule("C18-R18", "injected keys and mouse events come out exactly as injected: InjectKey and InjectMouse reach the post on every path, whatever modes are enabled")
 	c.Expect("C18-R18", 2)
 	checkInjectAlwaysPosts(c, p, "C18-R18")
+	c.Rule("C18-R19", "injected key bytes come out as the real decoder would deliver them: a rune event made straight from an input byte is made only where the byte is printable (a control byte is its control key, with the Ctrl-letter modifier rule of InjectKeyBytes, not NewEventKey's)")
+	c.Expect("C18-R19", 1)
+	checkInjectedControlBytesAreKeys(c, p, "C18-R19")
+	c.Rule("C18-R20", "the cursor query reflects ShowCursor: every call recomputes the visibility (SetSize resets the stored position without it)")
+	c.Expect("C18-R20", 1)
+	checkShowCursorAlwaysRecomputes(c, p, "C18-R20")
 	c.Rule("C18-R8", "the simulation's ShowCursor remembers the requested position as given")
 	c.Expect("C18-R8", 1)
 	checkShowCursorStoresRequest(c, p, "C18-R8", "simscreen")
